@@ -14,6 +14,9 @@ import (
 	"cmp"
 	"math"
 	"strconv"
+	"time"
+
+	"github.com/emirpasic/gods/v2/utils"
 
 	"github.com/emirpasic/gods/v2/maps/treebidimap"
 	"github.com/emirpasic/gods/v2/maps/treemap"
@@ -59,6 +62,8 @@ func typedSysFor(c string, j Job) Sys {
 		return typedSys(c, j, specU64)
 	case "sk":
 		return typedSys(c, j, specSK)
+	case "time":
+		return timeSys(c, j)
 	}
 	return nil
 }
@@ -173,4 +178,61 @@ func typedSys[T cmp.Ordered](c string, j Job, sp typeSpec[T]) Sys {
 		return sys
 	}
 	panic("typedSys: unknown container " + c)
+}
+
+// timeSys: the one comparator the library itself ships for a non-ordered key type, utils.TimeComparator,
+// given to the tree containers; the reference order is time.Time.Compare.  The universe holds instants
+// that a detour through UnixNano() cannot tell apart (2^64 ns apart) or orders wrongly (outside 1678-2262).
+// (after seeded change C10-14)
+func timeUniverse() []time.Time {
+	z := time.Time{}.UTC()
+	base := time.Date(2024, 1, 1, 0, 0, 0, 0, time.UTC)
+	wrap := func(t time.Time) time.Time {
+		return time.Unix(t.Unix()+18446744073, int64(t.Nanosecond())+709551616).UTC()
+	} // + 2^64 ns
+	return []time.Time{base, wrap(base), z, wrap(z), time.Unix(0, 0).UTC()}
+}
+
+func timeSys(c string, j Job) Sys {
+	u := j.p("u", 5)
+	U := timeUniverse()
+	if u > len(U) {
+		u = len(U)
+	}
+	ref := func(a, b time.Time) int { return a.Compare(b) }
+	probes := []time.Time{time.Date(1600, 1, 1, 0, 0, 0, 0, time.UTC), time.Date(3000, 1, 1, 0, 0, 0, 0, time.UTC)}
+	label := "/time.Time/utils.TimeComparator"
+	switch c {
+	case "treeset":
+		s := &SetSys[time.Time]{Kind: c, CmpN: "nat", U: U[:u], Absent: probes[0], Poison: probes[1], Cmp: ref, Tuples: defaultSetTuples(u), Label: label, NoCtor: true}
+		s.Custom = func(vals ...time.Time) *setAPI[time.Time] {
+			return wrapTreeSet(treeset.NewWith[time.Time](utils.TimeComparator, vals...))
+		}
+		return s
+	case "treebidimap":
+		sys := &KVSys[time.Time, time.Time]{Kind: c, CmpN: "nat", VCmpN: "nat", N: u, KU: U[:u], VU: U[:min(u, 3)], KCmp: ref, VCmp: ref,
+			PropsL: kvProps, Label: label, NoCount: true, Probes: func(live []time.Time) []time.Time { return probes }}
+		sys.Custom = func(b *kvBox[time.Time, time.Time]) *kvAPI[time.Time, time.Time] {
+			return wrapTreeBidiMap(treebidimap.NewWith[time.Time, time.Time](utils.TimeComparator, utils.TimeComparator))
+		}
+		return sys
+	case "treemap", "rbt", "avl", "btree":
+		order := j.p("m", 3)
+		sys := &KVSys[time.Time, Val]{Kind: c, Order: order, CmpN: "nat", N: u, KU: U[:u], Fresh: func(i int) Val { return Val(i) },
+			KCmp: ref, VCmp: func(a, b Val) int { return int(a - b) }, PropsL: kvProps, Label: label, NoCount: true,
+			Probes: func(live []time.Time) []time.Time { return probes }}
+		sys.Custom = func(b *kvBox[time.Time, Val]) *kvAPI[time.Time, Val] {
+			switch c {
+			case "rbt":
+				return wrapRBT(redblacktree.NewWith[time.Time, Val](utils.TimeComparator))
+			case "avl":
+				return wrapAVL(avltree.NewWith[time.Time, Val](utils.TimeComparator))
+			case "btree":
+				return wrapBT(btree.NewWith[time.Time, Val](order, utils.TimeComparator), order)
+			}
+			return wrapTreeMap(treemap.NewWith[time.Time, Val](utils.TimeComparator))
+		}
+		return sys
+	}
+	panic("timeSys: no time.Time job for " + c)
 }
